@@ -686,10 +686,18 @@ def replay_rhocut(version, mode):
             def run(Xin, r, sg):
                 vt = (np.zeros_like(r, order="F"), np.zeros_like(sg, order="F"))
                 return K2(Xin.copy(), (np.asfortranarray(r), np.asfortranarray(sg)), vt, rhocut=rc)[0]
-            e2 = run(X, rho, sig)
-            ea = run(X[:1], 2 * rho[:1], 4 * sig[:1])
-            eb = run(X[1:], 2 * rho[1:], 4 * sig[2:])
-            return {"reproduced": bool(abs(e2[0] - 0.5 * (ea[0] + eb[0])) > 1e-12), "E[a,b]": float(e2[0]), "(E[2a]+E[2b])/2": float(0.5 * (ea[0] + eb[0])), "rhocut": rc, "n_a": 0.7, "n_b": 0.9}
+            # one density pair per cutoff region: both channels between rhocut/2 and rhocut; one channel below rhocut/2 with the sum above rhocut (either way);
+            # both below
+            out = None
+            for na, nb in ((0.7, 0.9), (0.3, 0.9), (0.9, 0.3), (0.3, 0.3)):
+                rho = np.array([[na], [nb]])
+                e2 = run(X, rho, sig)
+                ea = run(X[:1], 2 * rho[:1], 4 * sig[:1])
+                eb = run(X[1:], 2 * rho[1:], 4 * sig[2:])
+                out = {"reproduced": bool(abs(e2[0] - 0.5 * (ea[0] + eb[0])) > 1e-12), "E[a,b]": float(e2[0]), "(E[2a]+E[2b])/2": float(0.5 * (ea[0] + eb[0])), "rhocut": rc, "n_a": na, "n_b": nb}
+                if out["reproduced"]:
+                    break
+            return out
 
         class Ev(xe.FuncEvaluator):
             def __call__(self, X1, res=None, dres=None):
